@@ -188,6 +188,13 @@ class Scratch:
 				return t
 			t = self.clock.advance(step)
 
+	def edit_at(self, rel: str, content: bytes, mtime_ns: int) -> int:
+		"""Write a content with an explicitly chosen (older) mtime: a restore that preserves timestamps (cp -p, rsync -t, touch -r).
+		The caller is responsible for the premise (see HistoryRunner: only mtimes whose cached state has been superseded by a later run)."""
+		self.write(rel, content, mtime_ns)
+		self.mtime_history.setdefault(rel, {})[os.path.getmtime(self.path(rel))] = hashlib.md5(content).hexdigest()
+		return mtime_ns
+
 	def read(self, rel: str) -> bytes | None:
 		try:
 			with open(self.path(rel), 'rb') as f:
